@@ -34,7 +34,13 @@ func (r *rng) smallRange() (int, int) {
 }
 
 func (r *rng) intGen() *SX {
-	switch r.intn(8) {
+	switch r.intn(10) {
+	case 8:
+		lo, hi := r.frange(52, 11)
+		return L(A("f64"), U(lo), U(hi))
+	case 9:
+		lo, hi := r.frange(23, 8)
+		return L(A("f32"), U(lo), U(hi))
 	case 0:
 		lo := r.ubound()
 		hi := r.ubound()
